@@ -302,16 +302,31 @@ def run(chk):
     while len(cases) < n and tries < n * 20:
         tries += 1
         g = Gen(rnd)
-        prog = g.block(2, rnd.randint(3, 7))
+        if tries % 7 == 3:
+            g.nview = 3  # no subviews in this family (they would have to be hoisted out of the loops)
+            # sibling inner loops (or an inner loop next to a conditional) in one outer loop: dependencies across the
+            # outer back edge between operations that share no inner loop
+            def leaf():
+                return [s for s in g.block(0, rnd.randint(1, 2)) if s[0] != "view"] or [("test", g.newtag())]
+
+            kinds = ["args", "k0_3_2", "k0_2_1", "k0_1_1"]
+            inner = [("for", leaf(), rnd.choice(kinds)), ("for", leaf(), rnd.choice(kinds))]
+            if rnd.random() < 0.4:
+                inner[rnd.randrange(2)] = ("if", rnd.randrange(2), leaf(), leaf() if rnd.random() < 0.5 else None)
+            if rnd.random() < 0.4:
+                inner.insert(rnd.randrange(3), leaf()[0])
+            prog = [s for s in g.block(0, rnd.randint(0, 2)) if s[0] != "view"] + [("for", inner, rnd.choice(["args", "args", "k0_3_2", "k0_2_1"]))] + [s for s in g.block(0, rnd.randint(0, 1)) if s[0] != "view"]
+        else:
+            prog = g.block(2, rnd.randint(3, 7))
         if not view_scoped(prog):
             continue
         # views must precede their uses: move all top-level view statements to the front
         views = [s for s in prog if s[0] == "view"]
         prog = views + [s for s in prog if s[0] != "view"]
-        if len(views) != g.nview:
+        if len(views) != g.nview and tries % 7 != 3:
             continue
         de = tuple(i for i in range(3) if rnd.random() < 0.3)
         cases.append((prog, de))
     chk.add_results("races_and_barrier_counts", pmap(case_prog, cases, chunks=4))
-    chk.bounds = dict(programs=len(cases), nesting="<=2", unroll_K=2, buffers="2 arguments + 3 allocations, <=3 subviews with offsets in {0,4,symbolic 0..4}")
+    chk.bounds = dict(programs=len(cases), nesting="<=2 (+ a family with sibling inner loops / conditionals in one outer loop)", unroll_K=2, buffers="2 arguments + 3 allocations, <=3 subviews with offsets in {0,4,symbolic 0..4}")
     chk.outside = ["more than 2 loop iterations", "views created inside loops"]
